@@ -359,7 +359,10 @@ Variant(f, p, xs) ==
 (* ------------------------------------------------------ evaluation points *)
 RealX == {I(-3), I(-1), R(-1, 2), I(0), R(1, 4), R(1, 2), R(3, 4), I(1), R(3, 2), I(2), I(3), I(5)}
          \cup (IF Deep THEN {I(-10), I(-2), R(1, 8), R(5, 4), R(5, 2), I(4), I(7), I(10), I(20)} ELSE {})
-CountX == {I(-2), I(-1), I(0), I(1), I(2), I(3), I(4), I(5), I(6), I(7), I(8), R(1, 2), R(5, 2), R(-1, 2)}
+(* every support point up to 8, points below the support, and NON-INTEGER points between consecutive *)
+(* support points including just below the smallest one (-1/2, -1e-6, -1+1e-6) and around 2          *)
+CountX == {I(-2), I(-1), I(0), I(1), I(2), I(3), I(4), I(5), I(6), I(7), I(8), R(1, 2), R(3, 2), R(5, 2), R(-1, 2),
+           R(-1, 1000000), R(-999999, 1000000), R(1999999, 1000000), R(2000001, 1000000), R(7, 2)}
 Around(S) == S \cup {RAdd(s, R(1, 8)) : s \in S} \cup {RSub(s, R(1, 8)) : s \in S}
 
 (* boundary points of the support (exactly representable) *)
@@ -641,6 +644,20 @@ Side(f, p, xs) ==
 (* derivative of |.| at 0 is a tie, DESIGN 3.6)                               *)
 Kink(f, p, xs) == f = "laplace" /\ REq(xs[1], p[1])
 
+(* storage of the evaluation point of a vector / matrix valued family: LogPdf must not depend  *)
+(* on how x is stored (dense, sparse with only the non-zero coordinates stored, sparse with     *)
+(* every coordinate stored, a window onto a larger dense container)                             *)
+VectorFams == {"iid_normal", "iid_exp", "id_normal_exp", "vnormal", "vt", "skewnormal", "vnormal1", "vnormal3", "vt1", "vt3",
+               "skewnormal1", "iid_normal1", "iid_normal3", "iid_exp3", "id_normal1", "id_nen3", "vmix1_vnormal", "vmix2_vn1", "hmm2_nn"}
+MatrixFams == {"iwishart", "iwishart1", "iwishart3", "mmix1_iw1", "mmix2_iw1", "mhmm2_vn1"}
+Kind(f) == IF f \in VectorFams THEN "vector" ELSE IF f \in MatrixFams THEN "matrix" ELSE "scalar"
+Storages(f) == IF f \in VectorFams THEN {"dense", "sparse", "sparse0", "view"}
+               ELSE IF f \in MatrixFams THEN {"dense", "sparse", "view"} ELSE {"dense"}
+
+(* special arguments of a discrete distribution function: +-Infinity, +-2^63, NaN *)
+SpecialToks == {"pinf", "ninf", "p2_63", "m2_63", "nan"}
+SpecialSide(tok) == CASE tok \in {"pinf", "p2_63"} -> "above" [] tok \in {"ninf", "m2_63"} -> "below" [] OTHER -> "any"
+
 (* ------------------------------------------- layout of the parameter vector *)
 (* normalised log-weight of a single component: log w - log w (not representable for w <= 0) *)
 LogW1 == Sub(Log(P(1)), Log(P(1)))
@@ -707,6 +724,12 @@ PmfTop(f, p) == IF f = "binomial" THEN p[2].n ELSE IF f = "categorical" THEN 2 E
 PmfTable(f, p) == [k \in 1..(PmfTop(f, p) + 1) |-> PmfQ(f, p, k - 1)]
 PartialSum(f, p, n) == RSumSeq([k \in 1..(n + 1) |-> PmfQ(f, p, k - 1)])
 
+(* exact distribution function of a discrete family that offers Cdf: the sum of the exact     *)
+(* masses over the support points <= x (x any rational, integer or not); complete for a finite *)
+(* support (Categorical)                                                                       *)
+CdfQ(f, p, x) == RSumSeq([k \in 1..(PmfTop(f, p) + 1) |-> IF RLe(I(k - 1), x) THEN PmfQ(f, p, k - 1) ELSE RZero])
+
+
 (* The masses of a valid discrete distribution sum to one:                   *)
 (*  Binomial, Categorical : the finite sum is exactly 1;                     *)
 (*  Geometric             : partial sum + closed-form tail (1-p)^(N+1) = 1;  *)
@@ -759,7 +782,7 @@ WGroups(f) == CASE f \in {"mix1_normal", "vmix1_vnormal", "mmix1_iw1"} -> <<<<1,
                 [] OTHER -> <<>>
 RawWeights(f) == IF WGroups(f) = <<>> \/ f \in {"hmm2_nn", "mhmm2_vn1"} THEN <<>> ELSE [i \in 1..(WGroups(f)[1][2]) |-> i]
 
-FamRec(f) == [k |-> "fam", wgroups |-> WGroups(f), rawweights |-> RawWeights(f), fam |-> f, np |-> NP(f), xdim |-> XDim(f), params |-> PL[f], nvalid |-> NValid[f],
+FamRec(f) == [k |-> "fam", kind |-> Kind(f), wgroups |-> WGroups(f), rawweights |-> RawWeights(f), fam |-> f, np |-> NP(f), xdim |-> XDim(f), params |-> PL[f], nvalid |-> NValid[f],
               variants |-> [i \in 1..Len(Variants(f)) |-> VarRec(f, Variants(f)[i])],
               pvec |-> PVec(f), dv |-> DiffVars(f), hascdf |-> HasCdf(f),
               disc |-> (f \in Discrete), exactpmf |-> ExactPmf(f)]
@@ -813,20 +836,31 @@ CloneA ==
   /\ b' = a /\ UNCHANGED <<fam, a>>
   /\ Out([k |-> "t", op |-> "clone", fam |-> fam, a |-> a, b |-> 0, w |-> 1, j |-> a, exp |-> "ok"])
 
-Eval(w, xs) ==
+Eval(w, xs, st) ==
   /\ fam # "none"
   /\ w = 2 => b # 0
   /\ LET p == Cur(w)  s == Supp(fam, p, xs) IN
-     Out([k |-> "t", op |-> "eval", fam |-> fam, a |-> a, b |-> b, w |-> w, j |-> 0, x |-> xs,
+     Out([k |-> "t", op |-> "eval", fam |-> fam, a |-> a, b |-> b, w |-> w, j |-> 0, x |-> xs, st |-> st,
           cls |-> Class(s), v |-> Variant(fam, p, xs), kink |-> Kink(fam, p, xs),
-          side |-> IF s = "out" THEN Side(fam, p, xs) ELSE "in"])
+          side |-> IF s = "out" THEN Side(fam, p, xs) ELSE "in",
+          cdfq |-> IF fam \in Discrete /\ HasCdf(fam) THEN CdfQ(fam, p, xs[1]) ELSE RZero])
+  /\ UNCHANGED vars
+
+(* discrete distribution functions at +-Inf, +-2^63 and NaN: 0 below, 1 above, LogPdf = -Inf; *)
+(* for NaN only "no panic" is demanded                                                        *)
+EvalSp(w, tok) ==
+  /\ fam \in Discrete /\ HasCdf(fam)
+  /\ w = 2 => b # 0
+  /\ Out([k |-> "t", op |-> "evalsp", fam |-> fam, a |-> a, b |-> b, w |-> w, j |-> 0, tok |-> tok, side |-> SpecialSide(tok)])
   /\ UNCHANGED vars
 
 Next ==
   \/ \E f \in Families : \E i \in 1..Len(PL[f]) : New(f, i)
   \/ fam # "none" /\ \E w \in {1, 2} : \E j \in 1..Len(PL[fam]) : SetP(w, j)
   \/ CloneA
-  \/ fam # "none" /\ \E w \in {1, 2} : (w = 2 => b # 0) /\ \E xs \in XGrid(fam, Cur(w)) : Eval(w, xs)
+  \/ fam # "none" /\ \E w \in {1, 2} : (w = 2 => b # 0) /\ \E xs \in XGrid(fam, Cur(w)) :
+                            \E st \in (IF b = 0 THEN Storages(fam) ELSE {"dense"}) : Eval(w, xs, st)
+  \/ fam # "none" /\ \E w \in {1, 2} : \E tok \in SpecialToks : EvalSp(w, tok)
 
 Spec == Init /\ [][Next]_vars
 
